@@ -2,13 +2,14 @@
    extracted inductive types; no Extract Constant / Extract Inductive of our own. *)
 From Coq Require Extraction.
 From Coq Require Import ExtrOcamlBasic.
-From Octo Require Import Base.Bytes Crypto.Prims Lib.Framed Model.PacketWindow Model.Utf8 Model.Address Model.NonceGen Model.SsChunk Model.SsTcp Model.Trojan Model.Socks5 Model.Http Model.Vmess Model.Config.
+From Octo Require Import Base.Bytes Crypto.Prims Lib.Framed Lib.WsFramed Model.PacketWindow Model.Utf8 Model.Address Model.NonceGen Model.SsChunk Model.SsTcp Model.Trojan Model.Socks5 Model.Http Model.Vmess Model.Config.
 Extraction Language OCaml.
 Extraction "model.ml"
   pw_new pw_validate pw_run spec_run pw_reset
   utf8_valid
   s5_encode s5_length s5_try_decode_at s5_decode vm_write vm_read accept_addr
   feed run inc counting_splice counting_next
+  ws_init ws_step ws_run ws_view ws_held
   codec_new ss_encode ss_decode server_decode
   trojan_server_decode trojan_client_udp_decode trojan_client_head trojan_packet_encode trojan_key hex_encode
   s5_initial_request s5_command_request s5_initial_response s5_command_response s5_udp_decode s5_udp_encode
